@@ -33,7 +33,14 @@ UNITS = {
                                "as_byte_label|as_word_label|as_unsupported|as_offset_as_byte": ["C14"], "as_d[bw]_.*|as_set|advance_data_counter": ["C12", "C14"], "add_entry": ["C16"], "new|get_type": ["C08", "C14"]}},
     "driver": {"tpl": "driver.rs", "props": ["C07", "C08", "C12", "C14", "C17", "C18", "C19", "C20"],
                "fn_props": {**PRELUDE_FNS, "run": ["C08"], "user_interface": ["C20"], "note_prompt": ["C20"], "lemma_least_undefined": ["C19", "C14"],
-                            "get_type|get_source_map": ["C08", "C14"]}},
+                            "get_type|get_source_map": ["C08", "C14"]},
+               "assumes": [
+                   "unit driver: ASSUMED contract of `preprocess` (whole-parse invariants of the assembler: every emitted instruction has a source-map entry, label/procedure values <= number of instructions, positions inside the text < 2^31); per production they are the emission contracts of unit `assembler`, the induction over the parse is not discharged",
+                   "unit driver: ASSUMED contract of `Interpreter::parse` (a returned jump target is a code-label value, a procedure entry or a return position; symbol tables unchanged; the line \"hlt\" is answered HALT); per production: units `transfer` and Kani h_control_*",
+                   "unit driver: stubs of DataParser::parse, PrintParser::parse, int_13, int_21 only record the call in the ghost trace (their behaviour is under contract in units loader / printer / interrupts); get_err_pos ordering assumed (LexerHelper::get_line is a BOUNDED Kani unit); Regex / String text helpers unspecified",
+                   "unit driver: assumed: a &str lookup in HashMap<String,_> finds the String with the same characters; Strings with equal characters are equal; str::trim / to_ascii_lowercase are uninterpreted functions; std::process::exit does not return; vstd's BTreeSet traversal spec with obeys_cmp for (usize, String)",
+                   "unit driver: rewrites R7-R10 (ghost arguments / proof hints, String == literal, source slices in messages logged as opaque values: the slicing itself is NOT checked, local `int` renamed)",
+               ]},
 }
 
 VERUS_TRUSTED = [
@@ -165,6 +172,88 @@ def assembler_emitters(ex) -> str:
     return "\n".join(out), k
 
 
+def call_levels(text: str):
+    """exec functions under contract grouped so that no function of a group calls another one of the same group
+    (level = depth of the function in the call graph of the file)"""
+    spans = [sp for sp in fn_spans(text) if sp["kind"] == "exec"]
+    lines = text.split("\n")
+    names = {sp["name"] for sp in spans}
+    calls = {}
+    for sp in spans:
+        body = "\n".join(lines[sp["start"]:sp["end"]])
+        calls[sp["name"]] = {n for n in names if n != sp["name"] and re.search(r"(?<![A-Za-z0-9_])" + re.escape(n) + r"\s*(::<[^>]*>)?\(", body)}
+    level = {}
+    def lv(n, seen=()):
+        if n in level:
+            return level[n]
+        if n in seen:
+            return 0
+        level[n] = 1 + max((lv(c, seen + (n,)) for c in calls[n]), default=-1)
+        return level[n]
+    for n in names:
+        lv(n)
+    groups = {}
+    for n, l in level.items():
+        groups.setdefault(l, set()).add(n)
+    return [groups[l] for l in sorted(groups)]
+
+
+def vacuity_variant(text: str, only):
+    """the same file with `false` added as first postcondition of the exec functions in `only`.  Each of them must now FAIL:
+    one that still verifies has a contradictory precondition / assumed callee contract / invariant (or never returns), and
+    its discharged obligations mean nothing.  (Callers of these functions verify trivially in this variant and are not judged.)"""
+    spans = [sp for sp in fn_spans(text) if sp["kind"] == "exec" and sp["name"] in only]
+    lines = text.split("\n")
+    names = []
+    for sp in sorted(spans, key=lambda x: -x["start"]):
+        # the contract sits between the signature line and the body's opening brace (a line holding only `{`)
+        body_open = None
+        for ln in range(sp["start"], sp["end"] + 1):
+            if lines[ln - 1].strip() == "{":
+                body_open = ln
+                break
+        if body_open is None:
+            continue
+        head = list(range(sp["start"], body_open))
+        ens = next((ln for ln in head if re.match(r"\s*ensures\b", lines[ln - 1])), None)
+        if ens is not None:
+            lines[ens - 1] = re.sub(r"\bensures\b", "ensures false,", lines[ens - 1], count=1)
+        else:
+            dec = next((ln for ln in head if re.match(r"\s*decreases\b", lines[ln - 1])), None)
+            at = dec if dec is not None else body_open
+            lines.insert(at - 1, "    ensures false,")
+        names.append(sp["name"])
+    return "\n".join(lines), names
+
+
+def run_vacuity(unit: str, text: str, vdir: str):
+    """-> (list of functions that verify `ensures false` = vacuous, or None when there is no answer; wall seconds; functions probed)"""
+    t0 = time.time()
+    vacuous, probed = [], []
+    for k, group in enumerate(call_levels(text)):
+        vt, names = vacuity_variant(text, group)
+        probed += names
+        path = os.path.join(vdir, f"{unit}_vacuity{k}.rs")
+        open(path, "w").write(vt)
+        try:
+            p = subprocess.run(["verus", path, "--multiple-errors", "400", "--rlimit", "20"], stdout=subprocess.PIPE, stderr=subprocess.PIPE, text=True, timeout=900)
+        except subprocess.TimeoutExpired:
+            return None, time.time() - t0, probed
+        if "verification results::" not in p.stdout + p.stderr:
+            return None, time.time() - t0, probed
+        spans = [sp for sp in fn_spans(vt) if sp["kind"] == "exec" and sp["name"] in names]
+        failing = set()
+        for blk in re.split(r"\n(?=error)", p.stderr):
+            if not blk.startswith("error") or blk.startswith("error: aborting"):
+                continue
+            for l in [int(x) for x in re.findall(r"-->\s*\S+?:(\d+):\d+", blk)]:
+                for sp in spans:
+                    if sp["start"] <= l <= sp["end"]:
+                        failing.add(sp["name"])
+        vacuous += [n for n in names if n not in failing]
+    return vacuous, time.time() - t0, probed
+
+
 def run_unit(unit: str, dst: str, root: str):
     """expand + verify one unit; returns dict with per-function results"""
     ex = verus_extract.Extractor(dst)
@@ -197,6 +286,15 @@ def run_unit(unit: str, dst: str, root: str):
     os.makedirs(keep, exist_ok=True)
     open(os.path.join(keep, f"verus_{unit}.rs"), "w").write(text)
     t0 = time.time()
+    import threading
+    vac = {}
+    def _vac():
+        try:
+            vac["res"] = run_vacuity(unit, text, vdir)
+        except Exception as e:   # never let the probe break the check: no answer = undecided below
+            vac["err"] = str(e)
+    vth = threading.Thread(target=_vac)
+    vth.start()
     cmd = ["verus", path, "--output-json", "--time", "--multiple-errors", "20", "--rlimit", "60"]
     out_of_reach = []          # functions Verus rejected (construct outside its subset): isolated, reported undecided
     for attempt in range(8):
@@ -256,7 +354,9 @@ def run_unit(unit: str, dst: str, root: str):
         blk_main = blk.split("\nnote:")[0]
         locs = [int(x) for x in re.findall(r"-->\s*\S+?:(\d+):\d+", blk_main)][:1]
         errors.append({"head": head, "lines": locs, "text": blk_main[:1500]})
+    vth.join()
     res = {"unit": unit, "wall": wall, "verified": vr.get("verified", 0), "errors_n": vr.get("errors", 0), "out_of_reach": out_of_reach,
+           "vacuity": vac,
            "fns": [], "rewrites": ex.rewrites, "functions": ex.functions, "path": path, "raw_err": p.stderr[-4000:],
            "smt_ms": js.get("times-ms", {}).get("smt", {}).get("total") if isinstance(js.get("times-ms", {}).get("smt"), dict) else None,
            "times": js.get("times-ms", {})}
@@ -321,11 +421,23 @@ def run_for_property(pid, tier, seed, dst, root, rep, findings):
         if a not in rep.assumptions:
             rep.assumptions.append(a)
     for unit in todo:
+        for a in UNITS[unit].get("assumes", []):
+            if a not in rep.assumptions:
+                rep.assumptions.append(a)
         r = run_unit(unit, dst, root)
         rep.extra.setdefault("verus_units", []).append({"unit": unit, "wall_s": round(r["wall"], 1), "verified": r["verified"],
                                                         "errors": r["errors_n"], "times_ms": r["times"],
                                                         "rewrites": sorted(set(r["rewrites"]))[:60]})
         ntotal = 0
+        vres = r.get("vacuity", {}).get("res")
+        if vres is None or vres[0] is None:
+            rep.undecided.append(f"verus {unit}: vacuity probe (every function with `ensures false` must fail) gave no answer: " + str(r.get("vacuity", {}).get("err", "timeout"))[:300])
+        else:
+            vacuous, vwall, vnames = vres
+            rep.extra.setdefault("vacuity_probe", []).append({"unit": unit, "functions_probed": len(vnames), "all_refute_ensures_false": not vacuous, "wall_s": round(vwall, 1)})
+            for name in vacuous:
+                if name not in r.get("out_of_reach", []) and pid in (fn_props(unit, name) + UNITS[unit]["props"]):
+                    rep.undecided.append(f"verus {unit}::{name}: VACUOUS -- the function verifies `ensures false` (contradictory precondition, assumed contract or invariant); its obligations prove nothing")
         for name in r.get("out_of_reach", []):
             if pid in fn_props(unit, name):
                 rep.undecided.append(f"verus {unit}::{name}: construct outside Verus' subset (function isolated; the rest of the unit was verified)")
